@@ -136,13 +136,39 @@ blake_mac!(B2sMac, blake2s::Blake2s);
 pub struct DigC<T: Digest + Clone + 'static>(pub T);
 impl<T: Digest + Clone + 'static> LifeObj for DigC<T> {
     fn input(&mut self, d: &[u8]) {
-        Digest::input(&mut self.0, d)
+        // the trait's convenience entry point for text, whenever the chunk happens to be text of odd length
+        match core::str::from_utf8(d) {
+            Ok(s) if d.len() % 2 == 1 => Digest::input_str(&mut self.0, s),
+            _ => Digest::input(&mut self.0, d),
+        }
     }
     fn result(&mut self, raw: bool) -> Vec<u8> {
         let n = Digest::output_bytes(&self.0);
-        let mut b = if raw { dirty(n) } else { vec![0u8; n] };
-        Digest::result(&mut self.0, &mut b);
-        b
+        if raw {
+            let mut b = dirty(n);
+            Digest::result(&mut self.0, &mut b);
+            b
+        } else {
+            // the trait's hexadecimal convenience result, decoded again
+            let hex = Digest::result_str(&mut self.0);
+            let hb = hex.as_bytes();
+            let nib = |c: u8| -> u8 {
+                match c {
+                    b'0'..=b'9' => c - b'0',
+                    b'a'..=b'f' => c - b'a' + 10,
+                    _ => 0xff, // upper case or anything else is not the documented format: shows as a wrong digest
+                }
+            };
+            let mut b = vec![0u8; hb.len() / 2];
+            for (i, o) in b.iter_mut().enumerate() {
+                let (h, l) = (nib(hb[2 * i]), nib(hb[2 * i + 1]));
+                *o = if h > 15 || l > 15 { !0 } else { (h << 4) | l };
+            }
+            if hb.len() != 2 * n {
+                b.push(0xee); // wrong length shows as a mismatch
+            }
+            b
+        }
     }
     fn result_into(&mut self, size: usize) -> Vec<u8> {
         let mut b = dirty(size);
